@@ -323,6 +323,53 @@ func exprTrees(tier string, emit func(*xnode)) {
 	for n := full + 1; n <= rep; n++ {
 		enumTrees(reps, n, n%3, emit)
 	}
+	subscriptWordTrees(tier, emit)
+}
+
+// xposWords: columns spelled like the position keywords of a subscript (the words are not reserved).
+var xposWords = []string{"offset", "ORDINAL", "safe_offset", "Safe_Ordinal"}
+
+// subscriptWordTrees: plain subscripts x[t] whose expression t starts with (more precisely: whose leftmost leaf is) a
+// column spelled offset / ordinal / safe_offset / safe_ordinal — `a [ offset ]`, `a [ ORDINAL * 1 ]`, `a [ offset . f ]`,
+// `a [ offset [ OFFSET ( 1 ) ] ]`, …  parseIndexSpecifier must take the word for the position keyword only in front of "(".
+// Every tree with up to 1 (quick) / 2 (thorough) operator occurrences over the full operator set with each of the four
+// words, and every tree with 2 / 3 occurrences over the representative set with the words in rotation.
+func subscriptWordTrees(tier string, emit func(*xnode)) {
+	var idx *xop
+	for i := range xops {
+		if xops[i].id == "idx" {
+			idx = &xops[i]
+		}
+	}
+	wrap := func(t *xnode, w string) {
+		var sub func(n *xnode) *xnode
+		sub = func(n *xnode) *xnode {
+			if n.op == nil {
+				return &xnode{atom: w}
+			}
+			c := &xnode{op: n.op, kids: append([]*xnode{}, n.kids...)}
+			c.kids[0] = sub(n.kids[0])
+			return c
+		}
+		emit(&xnode{op: idx, kids: []*xnode{{atom: "a"}, sub(t)}})
+	}
+	full := 1
+	if tier == "thorough" {
+		full = 2
+	}
+	all := xopSet(false)
+	for n := 0; n <= full; n++ {
+		enumTrees(all, n, 1, func(t *xnode) {
+			for _, w := range xposWords {
+				wrap(t, w)
+			}
+		})
+	}
+	cnt := 0
+	enumTrees(xopSet(true), full+1, 2, func(t *xnode) {
+		wrap(t, xposWords[cnt%len(xposWords)])
+		cnt++
+	})
 }
 
 var soupVocab = []string{
@@ -335,7 +382,11 @@ var exprCases = []string{
 	"- 1", "- -1", "-+1", "+ 1.5", "- - 1", "- - - 1", "-1", "+1", "~1", "~ -1", "- ~1", "-a", "- -a", "-(1)", "-(-1)", "- 0x1F", "-.5", "- 1e3",
 	"a.b.c", "a.b[1].c", "(a).b", "a . b", "1 .b", "1.b", "a.b.c.d", "a.`b`.c", "`a`.b", "a.1", "a.select", "a[1].b.c", "(a.b).c", "a.b.*", "a.*",
 	"@p.x", "'x'.f", "NULL.f", "a[OFFSET(1)]", "a[offset(1)]", "a[ORDINAL(1)]", "a[safe_offset(1)][SAFE_ORDINAL(2)]", "a[`offset`(1)]",
-	"a[offset]", "a[offset + 1]", "a[(offset)]", "a[b.c]", "a[1][2]", "a[b[c]]", "a[1 + 2]", "a[1, 2]", "a[]", "a[1", "a]",
+	"a[offset]", "a[ORDINAL * 2]", "a[offset.f]", "a[offset (1)]", "a[safe_offset]", "a[SAFE_ORDINAL]", "a[offset][ordinal]", "a[offset IS NULL]",
+	"a[ordinal IN (1)]", "a[ordinal IN UNNEST(safe_offset)]", "a[offset(1) + 1]", "a[offset(1).f]", "a[offset[1]]", "a[offset[offset(offset)]]", "a[`offset`]",
+	"a[offset .f]", "a[ordinal . f [ safe_offset ] ]", "a[- offset]", "a[NOT offset]", "a[offset", "a[offset(]", "a[offset(1]", "a[offset ()]", "a[offset 1]",
+	"a[offset 'x']", "a[offset BETWEEN ordinal AND safe_ordinal]", "a[offset.f(1)]", "a[offset AND (1)]", "a[offset.*]", "a[offset -- c\n]", "a[offset /* c */ (1)]",
+	"a[offset + 1]", "a[(offset)]", "a[b.c]", "a[1][2]", "a[b[c]]", "a[1 + 2]", "a[1, 2]", "a[]", "a[1", "a]",
 	"a = b = c", "a = b < c", "a < b IS NULL", "a IS NULL IS NULL", "a IN (1) IN (2)", "a BETWEEN 1 AND 2 BETWEEN 3 AND 4", "a LIKE b LIKE c",
 	"a NOT LIKE b", "a NOT b", "a NOT", "a IS", "a IS NOT", "a IS NOT NULL", "a IS NOT b", "NOT NOT a", "NOT a = b", "a = NOT b", "- NOT a",
 	"a BETWEEN b AND c AND d", "a BETWEEN b | c AND d", "a BETWEEN b AND c OR d", "a BETWEEN b OR c AND d", "a BETWEEN b = c AND d",
